@@ -273,11 +273,19 @@ def href_form(href: str) -> str:
     return "page_and_fragment" if sep else "page_only"
 
 
-def resolve(page_rel: str, href: str, directories: typing.Container[str]) -> typing.Tuple[typing.Optional[str], str]:
+def resolve(
+    page_rel: str,
+    href: str,
+    directories: typing.Container[str],
+    index_of: typing.Optional[typing.Mapping[str, str]] = None,
+) -> typing.Tuple[typing.Optional[str], str]:
     """
     Resolves a relative reference against the page's own path (both relative to the output root, POSIX separators).
     Returns (target file relative to the output root, or None when the reference leaves the output root; fragment).
-    A reference that names a directory means that directory's index.html (the generator's namespace file stem).
+    A reference that names a directory means that directory's index.html (the generator's default namespace file
+    stem + extension).  When the run was configured with another namespace file stem / extension the caller passes
+    `index_of` (directory -> the one namespace page the run actually produced there, found by listing the output): a
+    directory reference then means that page; a directory without such an entry keeps meaning its index.html.
     """
     path, _, frag = href.partition("#")
     path = path.split("?", 1)[0]
@@ -291,5 +299,25 @@ def resolve(page_rel: str, href: str, directories: typing.Container[str]) -> typ
     if joined == ".":
         joined = ""
     if path.endswith("/") or joined in directories or joined == "":
-        joined = posixpath.join(joined, "index.html")
+        if index_of is not None and joined in index_of:
+            joined = index_of[joined]
+        else:
+            joined = posixpath.join(joined, "index.html")
     return joined, frag
+
+
+_TYPE_PAGE = re.compile(r"^.+_\d+_\d+(\.[^/]*)?$")
+
+
+def is_type_page(rel: str) -> bool:
+    """Type pages are named <short name>_<major>_<minor><extension>; every other generated file is a namespace page."""
+    return bool(_TYPE_PAGE.match(rel.rsplit("/", 1)[-1]))
+
+
+def namespace_pages(rels: typing.Iterable[str]) -> typing.Dict[str, str]:
+    """directory -> its namespace page, for every directory that holds exactly one generated file that is no type page."""
+    per: typing.Dict[str, typing.List[str]] = {}
+    for rel in sorted(rels):
+        if not is_type_page(rel):
+            per.setdefault(posixpath.dirname(rel), []).append(rel)
+    return {d: v[0] for d, v in per.items() if len(v) == 1}
